@@ -884,6 +884,9 @@ class Evaluator:
         rname = recv.name if isinstance(recv, Obj) else None
         args = [self.ev1(a, p) for a in e["args"]]
         descs = [self.describe(a) for a in e["args"]]
+        comb = self.combinator(recv, recv_node, m, args, p, line)
+        if comb is not None:
+            return comb
         if m in ("to_owned", "to_string", "clone", "into", "as_str", "as_ref", "borrow") and not args:
             if isinstance(recv, Num):
                 p.ret = self.format("{}", [recv], [recv_node]) if m == "to_string" else recv
@@ -1034,20 +1037,133 @@ class Evaluator:
         return [p]
 
     def e_closure(self, e, p):
-        p.ret = Obj("closure")
+        # the closure's syntax tree travels with the value; it is evaluated where a combinator applies it
+        p.ret = Obj("closure", {"$params": e.get("params") or [], "$body": e.get("body")})
         return [p]
+
+    def apply_closure(self, clos, argvals, p):
+        """paths of the closure body evaluated on this path (its parameters bound, then unbound again)"""
+        if not (isinstance(clos, Obj) and clos.name == "closure" and clos.attrs.get("$body") is not None):
+            return None
+        params, body = clos.attrs["$params"], clos.attrs["$body"]
+        names = []
+        for pat in params:
+            names += self.pattern_names(pat)
+        saved = {n: p.env.get(n, _MISSING) for n in names}
+        for pat, v in zip(params, argvals):
+            self.bind(pat, v, p)
+        was_returned_marker = len(p.conds)
+        outs = self.block(body, [p]) if body.get("k") == "block" else self.expr(body, p)
+        for q in outs:
+            # `return` inside a closure leaves the closure only
+            q.returned = False
+            for n, v in saved.items():
+                if v is _MISSING:
+                    q.env.pop(n, None)
+                else:
+                    q.env[n] = v
+        return outs
+
+    def combinator(self, recv, recv_node, m, args, p, line):
+        """Option/Result combinators taking a closure: map, and_then, or_else, map_err, unwrap_or_else, ok_or_else.
+        Returns the resulting paths, or None if this is not such a call."""
+        if not args or not (isinstance(args[0], Obj) and args[0].name == "closure"):
+            return None
+        clos = args[0]
+        desc = self.describe(recv_node)
+        outs = []
+        if isinstance(recv, Res) and m in ("or_else", "map_err", "map", "and_then", "unwrap_or_else"):
+            if recv.ok is not None:
+                q = p.fork() if recv.err else p
+                q.conds.append((f"{desc} matches Ok(..)", True, line, None))
+                if m in ("map", "and_then"):
+                    res = self.apply_closure(clos, [recv.ok], q) or []
+                    for r_ in res:
+                        if m == "map":
+                            r_.ret = Res(r_.ret, False)
+                    outs.extend(res)
+                else:
+                    q.ret = recv.ok if m == "unwrap_or_else" else Res(recv.ok, False)
+                    outs.append(q)
+            if recv.err:
+                q = p.fork() if recv.ok is not None else p
+                q.conds.append((f"{desc} matches Err(..)", True, line, None))
+                if m in ("map", "and_then"):
+                    q.ret = Res(None, True)
+                    outs.append(q)
+                else:
+                    res = self.apply_closure(clos, [Obj("err")], q) or []
+                    for r_ in res:
+                        if m == "map_err":
+                            r_.ret = Res(None, True)
+                    outs.extend(res)
+            return outs
+        if isinstance(recv, Opt) and m in ("map", "and_then", "or_else", "unwrap_or_else", "ok_or_else", "map_or_else"):
+            if recv.some is not None:
+                q = p.fork() if recv.none else p
+                q.conds.append((f"{desc} matches Some(..)", True, line, None))
+                if m in ("map", "and_then"):
+                    res = self.apply_closure(clos, [recv.some], q) or []
+                    for r_ in res:
+                        if m == "map":
+                            r_.ret = Opt(r_.ret, False)
+                    outs.extend(res)
+                else:
+                    q.ret = recv.some if m == "unwrap_or_else" else (Res(recv.some, False) if m == "ok_or_else" else Opt(recv.some, False))
+                    outs.append(q)
+            if recv.none:
+                q = p.fork() if recv.some is not None else p
+                q.conds.append((f"{desc} matches None", True, line, None))
+                if m in ("map", "and_then"):
+                    q.ret = Opt(None, True)
+                    outs.append(q)
+                else:
+                    res = self.apply_closure(clos, [], q) or []
+                    for r_ in res:
+                        if m == "ok_or_else":
+                            r_.ret = Res(None, True)
+                    outs.extend(res)
+            return outs
+        return None
 
     def e_struct(self, e, p):
         p.ret = Obj("struct:" + "::".join(e["path"]), {f[0]: self.ev1(f[1], p) for f in e["fields"]})
         return [p]
 
     def e_try(self, e, p):
-        v = self.ev1(e["e"], p)
-        if isinstance(v, Res):
-            p.ret = v.ok or Top("try")
-        else:
-            p.ret = Top("try")
-        return [p]
+        """`x?`: the None / Err case leaves the enclosing function (the action, or an inlined helper) with that value"""
+        live, outs = self.scrutinee_paths(e["e"], p)
+        desc = self.describe(e["e"])
+        line = e.get("line", 0)
+        for q in live:
+            v = q.ret
+            if isinstance(v, Opt):
+                if v.none:
+                    r = q.fork() if v.some is not None else q
+                    r.conds.append((f"{desc} matches None", True, line, None))
+                    r.ret = Opt(None, True)
+                    r.returned = True
+                    outs.append(r)
+                if v.some is not None:
+                    q.conds.append((f"{desc} matches Some(..)", True, line, None))
+                    q.ret = v.some
+                    outs.append(q)
+            elif isinstance(v, Res):
+                if v.err:
+                    r = q.fork() if v.ok is not None else q
+                    r.conds.append((f"{desc} matches Err(..)", True, line, None))
+                    r.effects.append(Effect("error", line, msg=None, start=None, end=None))
+                    r.ret = Res(None, True)
+                    r.returned = True
+                    outs.append(r)
+                if v.ok is not None:
+                    q.conds.append((f"{desc} matches Ok(..)", True, line, None))
+                    q.ret = v.ok
+                    outs.append(q)
+            else:
+                q.ret = Top("try")
+                outs.append(q)
+        return outs
 
     def e_other(self, e, p):
         self.unknown.append(("other", e.get("text", "")[:40], e.get("line")))
